@@ -46,6 +46,9 @@ const NAddr = 8
 
 func (a App) IsHTTP() bool { return a.Name == 3 }
 
+// IsRp: the guest is the real reverse_proxy handler (key = its hosts pool entry).
+func (m Mod) IsRp() bool { return m.Key >= 4 }
+
 // ---------------------------------------------------------------- printing
 
 func showNats(l []int) string {
@@ -202,6 +205,12 @@ func parseApp(s string) (App, bool) {
 		}
 	} else if f > 5 || f == 1 {
 		return App{}, false
+	}
+	for _, g := range m {
+		// keys >= 4 are real reverse_proxy handlers: only in the HTTP app, never "unknown"
+		if g.Key >= 4 && (n != 3 || g.Fault == 1) {
+			return App{}, false
+		}
 	}
 	return App{n, t, f, l, m}, true
 }
